@@ -411,6 +411,40 @@ func runCall(c call) (d string) {
 	return d
 }
 
+// inputRanges holds the address ranges of the shared inputs of the running case: a returned slice that
+// overlaps one of them (a function may legitimately hand back part of its argument) is left alone, since
+// writing to it would be the driver, not the library, modifying a shared input.
+var inputRanges [][2]uintptr
+
+func addInputRange(v reflect.Value) {
+	switch v.Kind() {
+	case reflect.Slice:
+		if v.Len() > 0 || v.Cap() > 0 {
+			sz := v.Type().Elem().Size()
+			inputRanges = append(inputRanges, [2]uintptr{v.Pointer(), v.Pointer() + uintptr(v.Cap())*sz})
+		}
+		if k := v.Type().Elem().Kind(); k == reflect.Slice {
+			for i := 0; i < v.Len(); i++ {
+				addInputRange(v.Index(i))
+			}
+		}
+	}
+}
+
+func overlapsInput(v reflect.Value) bool {
+	if v.Len() == 0 {
+		return false
+	}
+	lo := v.Pointer()
+	hi := lo + uintptr(v.Len())*v.Type().Elem().Size()
+	for _, r := range inputRanges {
+		if lo < r[1] && r[0] < hi {
+			return true
+		}
+	}
+	return false
+}
+
 // scribble overwrites every element of every slice reachable from a returned value: a returned slice
 // belongs to the caller; if the library kept an alias to it, later results change.
 func scribble(v reflect.Value) {
@@ -420,6 +454,9 @@ func scribble(v reflect.Value) {
 			scribble(v.Elem())
 		}
 	case reflect.Slice:
+		if overlapsInput(v) {
+			return
+		}
 		for i := 0; i < v.Len(); i++ {
 			e := v.Index(i)
 			switch e.Kind() {
@@ -457,6 +494,10 @@ func execConc(in In, em *Emitter) {
 	r := rand.New(rand.NewSource(in.I("seed")))
 	G, rounds := in.Int("g"), in.Int("rounds")
 	s := mkShared(r)
+	inputRanges = nil
+	for _, x := range []interface{}{s.bm, s.bmFull, s.bm2, s.r64, s.r128, s.sidx, s.sidx2, s.ridx, s.plainA, s.enc, s.paths, s.masks, s.decBM, s.decFull, s.vals} {
+		addInputRange(reflect.ValueOf(x))
+	}
 	raceReports() // drop anything older
 	em.Emit("Init", J{"mem": s.snapshot()})
 	cs := s.calls()
